@@ -368,8 +368,10 @@ class Parallel:
                 in_thread_results = None
 
                 queue_empty = False
+                # once every worker is gone nobody can queue anything more: what they queued is already there
+                pool_was_empty = not pool
                 try:
-                    worker_name, _, in_thread_results, exc = done_queue.get(True, 1)
+                    worker_name, _, in_thread_results, exc = done_queue.get(True, 0.1 if pool_was_empty else 1)
                     last_task_ts = time.monotonic()
                 except queue.Empty:
                     queue_empty = True
@@ -419,8 +421,9 @@ class Parallel:
                         for result in self._run_callbacks(in_thread_result)
                     ]
 
-                if not pool and queue_empty:
-                    # all workers are gone; leave only once the results they queued have been drained
+                if pool_was_empty and queue_empty:
+                    # all workers were gone before this poll and it found nothing: everything they queued has been drained
+                    # (a worker may queue its last result and exit between a timed-out poll and the reaping above)
                     break
 
                 for name in retired_workers:
